@@ -1,7 +1,7 @@
 package parser
 
 import (
-	"math"
+	"fmt"
 	"math/big"
 	"strconv"
 	"strings"
@@ -238,25 +238,22 @@ func parseRatio(source string, range_ Range) *RatioLiteral {
 	}
 }
 
-// TODO actually handle big int
 func ParsePercentageRatio(source string) (*big.Int, *big.Int, error) {
 	str := strings.TrimSuffix(source, "%")
-	num, err := strconv.ParseUint(strings.Replace(str, ".", "", -1), 0, 64)
-	if err != nil {
-		return nil, nil, err
+	// the digits are always decimal (a leading zero does not mean octal)
+	num, ok := new(big.Int).SetString(strings.Replace(str, ".", "", -1), 10)
+	if !ok {
+		return nil, nil, fmt.Errorf("invalid percentage: %s", source)
 	}
 
-	var denominator uint64
+	floatingDigits := 0
 	split := strings.Split(str, ".")
 	if len(split) > 1 {
-		// TODO verify this is always correct
-		floatingDigits := len(split[1])
-		denominator = (uint64)(math.Pow10(2 + floatingDigits))
-	} else {
-		denominator = 100
+		floatingDigits = len(split[1])
 	}
+	denominator := new(big.Int).Exp(big.NewInt(10), big.NewInt(int64(2+floatingDigits)), nil)
 
-	return big.NewInt(int64(num)), big.NewInt(int64(denominator)), nil
+	return num, denominator, nil
 }
 
 func parsePercentageRatio(source string, range_ Range) *RatioLiteral {
